@@ -2011,6 +2011,11 @@ fn check_definitions<'a>(
         term::Variant::Let(definitions, body) => {
             let new_depth = depth + definitions.len();
 
+            // Groups nested inside the definitions need to be checked too.
+            for (_, _, definition) in definitions {
+                check_definitions(source_path, source_contents, definition, new_depth, errors);
+            }
+
             for i in 0..definitions.len() {
                 if !is_value(&definitions[i].2) {
                     let mut visited = HashSet::new();
